@@ -58,4 +58,28 @@ structure SignatureVerification where
   deriving DecidableEq, Repr, Inhabited
 end trustpolicy
 
+/- opencontainers image-spec descriptor, notation-core-go envelope payload, notation results -/
+namespace ocispec
+structure Descriptor where
+  MediaType : String
+  Digest : String
+  Size : Int
+  Annotations : GoLite.Map String String
+  deriving DecidableEq, Repr, Inhabited
+end ocispec
+
+namespace envelope
+structure Payload where
+  TargetArtifact : ocispec.Descriptor
+  deriving DecidableEq, Repr, Inhabited
+end envelope
+
+namespace «notation»
+structure ValidationResult where
+  «Type» : trustpolicy.ValidationType
+  Action : trustpolicy.ValidationAction
+  Error : Option GoLite.Err
+  deriving DecidableEq, Repr, Inhabited
+end «notation»
+
 end NotationModel.Src
